@@ -15,8 +15,8 @@ MIRI = {
     "c06": {"seeds": 16, "params": {"cases": 2}, "timeout_s": 2400},
 }
 TSAN = {
-    "c10": {"params": {"cases": 300}, "timeout_s": 1500},
-    "c06": {"params": {"cases": 40}, "timeout_s": 1500},
+    "c10": {"params": {"cases": 1200}, "timeout_s": 2400},
+    "c06": {"params": {"cases": 400}, "timeout_s": 2400},
 }
 
 
